@@ -43,4 +43,5 @@ for c in $checks; do
 done
 git -C /repo checkout -- .
 git -C /repo status --short | head -3
+git -C /verif checkout -- evidence 2>/dev/null  # evidence files written while a change was applied are not kept
 echo "$results" > "/verif/seeded/$id/detection.txt"
